@@ -154,6 +154,45 @@ func TestC03(t *testing.T) {
 	})
 }
 
+// TestC03MiB: one page per column with more than 1 MiB of string values, for each codec (directed: the random workloads reach
+// such pages only a few times per run).
+func TestC03MiB(t *testing.T) {
+	nsh, idx := envInt("VERIF_NSHARDS", 1), envInt("VERIF_SHARDIDX", 0)
+	seed := envInt("VERIF_SEED", 1)
+	f := fx.Get("tiny")
+	g := vt.DefaultGen
+	g.LongList, g.MaxList, g.LongStr, g.MaxStr, g.UniformStr, g.NullPct, g.Adversarial = 0, 2, 0, 900, true, 10, false
+	for codec := 0; codec < 3; codec++ {
+		if codec%nsh != idx {
+			continue
+		}
+		n := 4200 + 37*(seed%13)
+		w := &Workload{Fixture: "tiny", PageSize: 10000, Codec: codec, Batches: []int{n}}
+		w.Records = rapid.Custom(func(t *rapid.T) []*vt.Val {
+			var out []*vt.Val
+			for i := 0; i < n; i++ {
+				out = append(out, vt.GenRecord(t, f.Root, g))
+			}
+			return out
+		}).Example(3000 + seed*3 + codec)
+		o := checkC03(w)
+		tot := 0
+		for _, r := range w.Records {
+			tot += len(r.F[1].S)
+		}
+		record("C03", fmt.Sprintf("mib/%d/%d", codec, n), true, []string{"page>1MiB", "codec=" + fx.CodecNames[codec]}, func() interface{} {
+			return map[string]interface{}{"fixture": "tiny", "records": n, "codec": fx.CodecNames[codec], "page_size": 10000, "strings": "450..900 bytes", "string_bytes_in_page": tot}
+		})
+		if o != nil {
+			if isKnown("C03", o.Key) {
+				continue
+			}
+			saveFail("C03", w, o)
+			t.Fatalf("C03 violated: %s", o.Error())
+		}
+	}
+}
+
 func TestReplayC03(t *testing.T) {
 	p := os.Getenv("VERIF_REPLAY")
 	if p == "" {
